@@ -50,6 +50,8 @@ def generate(prop, seed, tier):
         G.ensure_internal_node(spec, g, 'pos' if menu == 'pos' else 'prob')
     if g.random() < 0.2:
         G.add_unproductive_cycle(spec, g)
+    if g.random() < 0.4:
+        G.constant_factors(spec, g)
     npres = g.randrange(3, 5)
     pres = [build.random_presentation(spec, g) for _ in range(npres)]
     cfgs = []
@@ -193,8 +195,15 @@ def run_presentation(F, case, pi, cfg, steps):
                 grads = {}
                 for n, t in spec['terms'].items():
                     w = B.weights[n]
-                    gr = w.grad
-                    gr = torch.zeros_like(w) if gr is None else gr
+                    if hasattr(w, 'physical'):
+                        # gradient w.r.t. the stored elements, laid out densely (unbacked positions get 0)
+                        import sys as _sys
+                        g_ = w.physical.grad
+                        gr = _sys.modules['fggs.indices'].PatternedTensor(torch.zeros_like(w.physical) if g_ is None else g_,
+                                                                          w.paxes, w.vaxes, 0.0).to_dense()
+                    else:
+                        gr = w.grad
+                        gr = torch.zeros_like(w) if gr is None else gr
                     # undo permutation on the factor's axes
                     for ax, nl in enumerate(t['type']):
                         perm = pres['dom_perm'].get(nl)
@@ -295,6 +304,11 @@ def execute(case):
                 counters['config.grad-compared'] = counters.get('config.grad-compared', 0) + 1
             log.add('cfg', feats, [round(float(x), 8) if math.isfinite(float(x)) else str(float(x)) for x in base['value'].to(torch.float64).flatten().tolist()])
         edgeless = any(i not in {k for e in r['edges'] for k in e['att']} for r in spec['rules'] for i in range(len(r['nodes'])))
+        has_inf = any(math.isinf(v) for t in spec['terms'].values() for v in torch.tensor(t['weights'], dtype=torch.float64).flatten().tolist())
+        if has_inf:
+            # infinite weights put (-inf)+(+inf) = nan into viterbi()'s own einsum (it does not apply the 0 x inf = 0 convention),
+            # after which its arg-max bookkeeping is void: another C04 matter, set aside like the rule shapes above
+            edgeless = True
         if case.get('viterbi') and edgeless:
             # viterbi() on this tree mishandles rules with edgeless nodes (KeyError / AssertionError / expand error, a C04
             # matter, not claimed); whether it is hit depends on which tied derivation is chosen, so such grammars are skipped
